@@ -47,10 +47,11 @@ os.makedirs(dst)
 shutil.copy(diff, os.path.join(dst, 'patch.diff'))
 shutil.copytree(demo, os.path.join(dst, 'demo'), ignore=shutil.ignore_patterns('target'))
 # re-point the demo's path dependency at /repo (where the patch is applied when checks are exercised)
-ct = os.path.join(dst, 'demo', 'Cargo.toml')
-s = open(ct).read()
-s = re.sub(r'path\s*=\s*"[^"]*"', 'path = "/repo"', s)
-open(ct, 'w').write(s)
+import glob
+for ct in glob.glob(os.path.join(dst, 'demo', '**', 'Cargo.toml'), recursive=True):
+    s = open(ct).read()
+    s = re.sub(r'(entrait\s*=\s*\{[^}]*path\s*=\s*)"[^"]*"', r'\1"/repo"', s)
+    open(ct, 'w').write(s)
 notes = open(os.path.join(so, f'notes_{k}.md')).read()
 shutil.copy(os.path.join(so, f'notes_{k}.md'), os.path.join(dst, 'notes.md'))
 json.dump(dict(id=sid, property=prop, needs=notes[:1500], demo_mode=mode,
